@@ -21,9 +21,12 @@ import (
 	"net/http/httptest"
 	"os"
 	"path/filepath"
+	"runtime"
+	"runtime/pprof"
 	"strings"
 	"sync"
 	"syscall"
+	"time"
 
 	"github.com/thought-machine/please/src/cache"
 	"github.com/thought-machine/please/src/cli"
@@ -420,11 +423,17 @@ func runCase(c Case) (class, detail string, got *tree.Node) {
 }
 
 func main() {
+	runtime.GOMAXPROCS(2) // one case at a time: fewer threads make the uid switches and the goroutine hand-offs cheaper
 	r := lib.Start("C13", "fault_enumeration")
 	lib.Quiet()
 	logMem = logging.InitForTesting(logging.WARNING)
 	if r.Replay != "" {
 		r.Replay, _ = filepath.Abs(r.Replay)
+	}
+	if pf := os.Getenv("C13_PROF"); pf != "" {
+		f, _ := os.Create(pf)
+		pprof.StartCPUProfile(f)
+		go func() { time.Sleep(25 * time.Second); pprof.StopCPUProfile(); os.Exit(3) }()
 	}
 	base := os.Getenv("C13_TMP")
 	if st, e := os.Stat("/dev/shm"); base == "" && e == nil && st.IsDir() {
@@ -565,8 +574,8 @@ func main() {
 		step := 1
 		if t == big {
 			step = 7
-		} else if r.Quick() && t.Entries() > 2 && ti%4 != 0 {
-			continue // quick: every offset for the trees of <=2 entries and every 4th larger one
+		} else if r.Quick() && t.Entries() > 2 && ti%16 != 0 {
+			continue // quick: every offset for the trees of <=2 entries and every 16th larger one
 		}
 		for _, f := range []string{"body-short", "body-aborted"} {
 			for off := 0; off < 100000; off += step {
